@@ -138,6 +138,19 @@ def run(rep, tier, seed, b):
             rep.oracle_failures.append({'clause': 'strict encoding follows the constraints in force (as reported by get_semantic_constraints), also when tables change between calls '
                                                   'when the caller later edits the dict it passed, and after a set call that was rejected',
                                         'input': {'ops': ops + [['get'], tail[j]]}, 'impl': im[len(ops) + 1 + j], 'expected': ref[2 + j]})
+    # the internal graph itself after smiles_to_mol and after kekulize (atoms, adjacency rows with orders / marks / ring flags, bond counts, ring flags,
+    # delocalisation subgraph): the theorems about counts, orders and the subgraph (EncCount, EncOrders, EncKeep, EncKek) are statements about this state
+    dj = [(x, False) for x in smis[:1500 if tier == 'quick' else 40000]]
+    try:
+        dres = core.pmap('val_encoder', 'dump_chunk', dj, chunk=100)
+        for r in dres:
+            for bd in r['bad']:
+                rep.disagreements.append({'op': 'internal graph after smiles_to_mol / kekulize', 'input': {'smiles': bd['smiles']},
+                                          'impl': str(bd['impl'])[:400], 'model': str(bd['model'])[:400]})
+        rep.impl_traces += len(dj)
+        rep.extra['internal_graph_dumps_compared'] = len(dj)
+    except Exception as ex:       # the private attributes the dump reads were renamed or removed: the tie to the internal state is broken
+        rep.disagreements.append({'op': 'internal graph after smiles_to_mol / kekulize', 'input': {'smiles': dj[0][0] if dj else ''}, 'impl': 'dump failed: %r' % (ex,), 'model': None})
     for it, r in list(zip(items, res))[:4]:
         rep.sample({'smiles': it[1], 'strict': r['impl'], 'independent_count_says_violation': (r.get('c06') or {}).get('violates')})
     rep.rule = ('dataset molecules re-spelt and mutated (charges, explicit H, elements covered only by "?") x %d tables (presets and presets with capacities moved by 1-2, extra charged keys), '
